@@ -83,6 +83,7 @@
 #include "opentelemetry/sdk/instrumentationscope/instrumentation_scope.h"
 #include "opentelemetry/sdk/metrics/data/metric_data.h"
 #include "opentelemetry/sdk/metrics/data/point_data.h"
+#include "opentelemetry/sdk/metrics/export/metric_filter.h"
 #include "opentelemetry/sdk/metrics/export/metric_producer.h"
 #include "opentelemetry/sdk/metrics/instruments.h"
 #include "opentelemetry/sdk/metrics/meter_context.h"
@@ -353,6 +354,33 @@ private:
   sg::Arena &a_;
   bool terminated_;
 };
+
+// ------------------------------------------------------------------------------------------------
+// A reader may be registered together with a MetricFilter.  A filter that accepts everything must be invisible:
+// "every reader sees every measurement exactly once" also through MetricCollector's filtering path.  The kind is
+// derived from the reader's number (no stream byte is consumed): 0 no filter, 1 TestMetric answers kAccept,
+// 2 TestMetric answers kAcceptPartial and TestAttributes accepts every attribute set.  Kind 2 is only given to
+// all-cumulative readers: the filtering path drops a metric whose point list is empty, which an idle multi-reader
+// delta collection legitimately delivers, and the abutting-interval oracle counts that delivery.
+std::unique_ptr<sdkm::MetricFilter> transparent_filter(unsigned reader, unsigned n_readers, int mode, std::string *txt)
+{
+  unsigned kind = (reader + n_readers) % 3;
+  if (kind == 2 && mode != 1)
+    kind = 1;
+  if (kind == 0)
+    return nullptr;
+  *txt += kind == 1 ? " +filter(accept)" : " +filter(partial: every attribute set accepted)";
+  auto tm = [kind](const opentelemetry::sdk::instrumentationscope::InstrumentationScope &, nostd::string_view,
+                   const sdkm::InstrumentType &, nostd::string_view) {
+    return kind == 1 ? sdkm::MetricFilter::MetricFilterResult::kAccept
+                     : sdkm::MetricFilter::MetricFilterResult::kAcceptPartial;
+  };
+  auto ta = [](const opentelemetry::sdk::instrumentationscope::InstrumentationScope &, nostd::string_view,
+               const sdkm::InstrumentType &, nostd::string_view, const sdkm::PointAttributes &) {
+    return sdkm::MetricFilter::AttributesFilterResult::kAccept;
+  };
+  return sdkm::MetricFilter::Create(tm, ta);
+}
 
 // ------------------------------------------------------------------------------------------------
 // readers
@@ -641,8 +669,9 @@ void make_world(vh::Case &c, World &w, bool only_meter0 = false)
   for (unsigned r = 0; r < n_readers; ++r)
   {
     w.readers.emplace_back(new CReader(w.modes[r]));
-    w.provider->AddMetricReader(w.readers.back());
-    w.cfgtxt += "reader" + std::to_string(r) + ": " + mode_name(w.modes[r]) + "\n";
+    std::string ftxt;
+    w.provider->AddMetricReader(w.readers.back(), transparent_filter(r, n_readers, w.modes[r], &ftxt));
+    w.cfgtxt += "reader" + std::to_string(r) + ": " + mode_name(w.modes[r]) + ftxt + "\n";
   }
   w.rs.resize(n_readers);
   for (unsigned m = 0; m < (only_meter0 ? 1u : w.n_meters); ++m)
